@@ -34,7 +34,7 @@ CONSTANTS MaxItems, MaxN, Kinds, OneCfg, MaxOpt
 VARIABLES doc, cfg, c, opos, ranch, cur, pages, phase, blank, ifl
 vars == <<doc, cfg, c, opos, ranch, cur, pages, phase, blank, ifl>>
 
-AllKinds == {"p", "table", "float", "abs", "fixed", "running", "ib", "cols", "flex", "list", "pre", "grid", "rel", "span", "glue", "stack", "side", "pfl"}
+AllKinds == {"p", "table", "float", "abs", "fixed", "running", "ib", "cols", "flex", "list", "pre", "grid", "rel", "span", "glue", "stack", "side", "pfl", "avf"}
 OutOfFlow == {"float", "abs"}
 Repeated == {"fixed", "running"}
 Item == [kind : Kinds, n : 1..MaxN, wrap : 0..MaxOpt, hdr : BOOLEAN, ftr : BOOLEAN, opt : 0..MaxOpt]
@@ -44,7 +44,8 @@ Cfg == IF OneCfg THEN {[H |-> 3, W |-> 6, ow |-> 1]} ELSE [H : 2..5, W : {6, 12,
 
 Tok(i, r, k) == [it |-> i, role |-> r, k |-> k]
 Marker == Tok(0, 9, 0)                      \* first token of a blank page
-IFToks(d, i) == IF d[i].kind = "pfl" THEN <<Tok(i, 5, 1)>> ELSE <<>>
+\* "pfl": one word in a float inside the paragraph; "avf": a block (break-inside: avoid) that holds a float of three lines
+IFToks(d, i) == CASE d[i].kind = "pfl" -> <<Tok(i, 5, 1)>> [] d[i].kind = "avf" -> <<Tok(i, 5, 1), Tok(i, 5, 2), Tok(i, 5, 3)>> [] OTHER -> <<>>
 BodyToks(d, i) ==
   LET x == d[i] IN
   CASE x.kind = "table" -> [k \in 1..(2 * x.n) |-> Tok(i, 0, k)]          \* two cells per row
@@ -92,8 +93,9 @@ Accept(d, ps0) ==
           THEN "table-header-footer-not-once-per-fragment"
   ELSE IF \E p \in B : \E q \in 1..Len(ps[p]) : ps[p][q].role \in {0, 1, 2} /\ InFlowItem(d, ps[p][q].it) THEN "main-flow-content-on-a-blank-page"
   ELSE IF \E p \in B : p = 1 \/ p - 1 \in B THEN "blank-page-not-between-two-pages"
-  ELSE IF \E i \in 1..Len(d) : d[i].kind = "pfl" /\ Count(all, Tok(i, 5, 1)) = 0 THEN "float-inside-paragraph-lost"
-  ELSE IF \E i \in 1..Len(d) : d[i].kind = "pfl" /\ Count(all, Tok(i, 5, 1)) > 1 THEN "float-inside-paragraph-duplicated"
+  ELSE IF \E i \in 1..Len(d) : \E q \in 1..Len(IFToks(d, i)) : Count(all, IFToks(d, i)[q]) = 0 THEN "float-inside-paragraph-lost"
+  ELSE IF \E i \in 1..Len(d) : \E q \in 1..Len(IFToks(d, i)) : Count(all, IFToks(d, i)[q]) > 1 THEN "float-inside-paragraph-duplicated"
+  ELSE IF \E i \in 1..Len(d) : SelectSeq(all, LAMBDA t : t.it = i /\ t.role = 5) # IFToks(d, i) THEN "float-inside-paragraph-reordered"
   ELSE IF \E p \in 1..Len(ps) : \E i \in 1..Len(d) : d[i].kind = "fixed" /\ Count(ps[p], Tok(i, 3, 1)) # 1 THEN "fixed-not-once-per-page"
   ELSE IF \E i \in 1..Len(d) : d[i].kind = "running" /\
             LET on == {p \in 1..Len(ps) : Count(ps[p], Tok(i, 4, 1)) > 0}
@@ -102,7 +104,7 @@ Accept(d, ps0) ==
             \/ (\E p \in on : \E q \in (p + 1)..Len(ps) : q \notin on)        \* from the page of its anchor on, every page
             \/ (\E p \in later : \A q \in on : q > p)                          \* not later than the content that follows it
        THEN "running-element-not-once-per-page-from-its-anchor-on"
-  ELSE IF \E q \in 1..Len(all) : all[q].role \notin 0..5 \/ (all[q].role = 5 /\ d[all[q].it].kind # "pfl") THEN "unknown-text"
+  ELSE IF \E q \in 1..Len(all) : all[q].role \notin 0..5 \/ (all[q].role = 5 /\ IFToks(d, all[q].it) = <<>>) THEN "unknown-text"
   ELSE IF \E q \in 1..Len(all) : all[q].role \in {1, 2} /\ all[q] \notin ({HeadToks(d, all[q].it)[z] : z \in 1..Len(HeadToks(d, all[q].it))} \cup {FootToks(d, all[q].it)[z] : z \in 1..Len(FootToks(d, all[q].it))}) THEN "unknown-text"
   ELSE "ok"
 
@@ -136,9 +138,11 @@ PlaceOut(i) == /\ phase = "paginate" /\ i \in 1..Len(doc) /\ doc[i].kind \in Out
                /\ cur' = Append(cur, BodyToks(doc, i)[opos[i]])
                /\ opos' = [opos EXCEPT ![i] = @ + 1] /\ UNCHANGED <<doc, cfg, c, ranch, pages, phase, blank, ifl>>
 \* the float inside a paragraph is laid out once the main flow has entered the paragraph, on this page or a later one
-PlaceIFloat(i) == /\ phase = "paginate" /\ i \in 1..Len(doc) /\ doc[i].kind = "pfl" /\ i \notin ifl
+PlaceIFloat(i) == /\ phase = "paginate" /\ i \in 1..Len(doc)
                   /\ (CursorItem > i \/ (CursorItem = i /\ MainFlow(doc)[c].k > 1))
-                  /\ cur' = Append(cur, Tok(i, 5, 1)) /\ ifl' = ifl \cup {i}
+                  /\ \E k \in 1..Len(IFToks(doc, i)) :
+                       /\ IFToks(doc, i)[k] \notin ifl /\ \A j \in 1..(k - 1) : IFToks(doc, i)[j] \in ifl
+                       /\ cur' = Append(cur, IFToks(doc, i)[k]) /\ ifl' = ifl \cup {IFToks(doc, i)[k]}
                   /\ UNCHANGED <<doc, cfg, c, opos, ranch, pages, phase, blank>>
 Closed(s) == LET RECURSIVE F(_)
                  F(i) == IF i = 0 THEN <<>> ELSE F(i - 1) \o (IF doc[i].kind = "table" /\ HasBody(s, i) THEN FootToks(doc, i) ELSE <<>>)
@@ -148,7 +152,7 @@ PassAnchor(i) == /\ phase = "paginate" /\ i \in 1..Len(doc) /\ doc[i].kind = "ru
                  /\ ranch' = ranch \cup {i} /\ UNCHANGED <<doc, cfg, c, opos, cur, pages, phase, blank, ifl>>
 AllPlaced == /\ c > Len(MainFlow(doc)) /\ \A i \in 1..Len(doc) : doc[i].kind \in OutOfFlow => opos[i] > Len(BodyToks(doc, i))
              /\ \A i \in 1..Len(doc) : doc[i].kind = "running" => i \in ranch
-             /\ \A i \in 1..Len(doc) : doc[i].kind = "pfl" => i \in ifl
+             /\ \A i \in 1..Len(doc) : \A k \in 1..Len(IFToks(doc, i)) : IFToks(doc, i)[k] \in ifl
 ClosePage == /\ phase = "paginate" /\ cur # <<>> /\ ~AllPlaced /\ ~blank
              /\ pages' = Append(pages, Closed(cur)) /\ cur' = <<>> /\ UNCHANGED <<doc, cfg, c, opos, ranch, phase, blank, ifl>>
 \* a blank page: before an item that asks for a page of a given side, at most one, between two pages
